@@ -38,8 +38,8 @@ def inLag (c : Conn) : Bool :=
   | some m => lagBy m c
   | none => false
 
-/-- stored = live, up to the SequenceReset lag (D13) -/
-def Quiet (c : Conn) : Prop := OutOk c ∧ (InExact c ∨ inLag c = true)
+/-- stored = live, up to the SequenceReset lag (D13); the inbound counter is positive -/
+def Quiet (c : Conn) : Prop := OutOk c ∧ 0 < c.sess.nextIn ∧ (InExact c ∨ inLag c = true)
 
 /-- stored = live -/
 def StoredEqLive (c : Conn) : Prop := OutOk c ∧ InExact c
@@ -106,14 +106,16 @@ structure Good (om : Option Msg) (c c' : Conn) (e : List Effect) : Prop where
   writes : NewWritesBelow e c'.sess.nextOut
   inb : InSame c c' ∨ InExact c' ∨ (∃ m, om = some m ∧ lagBy m c' = true)
   ids : c'.sess.sender = c.sess.sender ∧ c'.sess.target = c.sess.target ∧ c'.hb = c.hb
+  pos : 0 < c.sess.nextIn → 0 < c'.sess.nextIn
 
 instance (om : Option Msg) : Compositional (Good om) where
-  refl := fun c => ⟨id, Int.le_refl _, NewWritesBelow.nil _, Or.inl (InSame.refl c), rfl, rfl, rfl⟩
+  refl := fun c => ⟨id, Int.le_refl _, NewWritesBelow.nil _, Or.inl (InSame.refl c), ⟨rfl, rfl, rfl⟩, id⟩
   trans := by
     intro c c1 c2 e1 e2 h1 h2
     refine ⟨fun h => h2.out (h1.out h), Int.le_trans h1.mono h2.mono,
       NewWritesBelow.append (h1.writes.mono h2.mono) h2.writes, ?_,
-      h2.ids.1.trans h1.ids.1, h2.ids.2.1.trans h1.ids.2.1, h2.ids.2.2.trans h1.ids.2.2⟩
+      ⟨h2.ids.1.trans h1.ids.1, h2.ids.2.1.trans h1.ids.2.1, h2.ids.2.2.trans h1.ids.2.2⟩,
+      fun h => h2.pos (h1.pos h)⟩
     rcases h2.inb with hs | hb | hc
     · rcases h1.inb with hs1 | hb1 | ⟨m, hm, hl⟩
       · exact Or.inl (hs1.trans hs)
@@ -125,9 +127,9 @@ instance (om : Option Msg) : Compositional (Good om) where
 /-- the step relation carries the quiescent invariant -/
 theorem Good.quiet {om : Option Msg} {c c' : Conn} {e : List Effect} (h : Good om c c' e) (hq : Quiet c) :
     Quiet c' := by
-  refine ⟨h.out hq.1, ?_⟩
+  refine ⟨h.out hq.1, h.pos hq.2.1, ?_⟩
   rcases h.inb with hs | hb | ⟨m, _, hl⟩
-  · rcases hq.2 with hi | hl
+  · rcases hq.2.2 with hi | hl
     · exact Or.inl (hi.of_same hs)
     · exact Or.inr (by rw [inLag_of_same hs]; exact hl)
   · exact Or.inl hb
